@@ -5,6 +5,7 @@
 -/
 import Axelar.Model.Governance
 import Axelar.Proofs.BytesLemmas
+import Axelar.Proofs.GovHistory
 namespace Axelar.Props.C11
 open Axelar Axelar.Governance Codec
 
@@ -163,6 +164,34 @@ theorem proposalHash_binding (C : Crypto) (t t' cd cd' : Bytes) (v v' : Nat)
     rw [beNat_natBE, beNat_natBE] at this
     exact ⟨e1, e2, this⟩
   · right; exact ⟨_, _, he, h⟩
+
+/-! ### Counting, over every history -/
+
+/-- **Each scheduling authorises at most one successful dispatch** — for every history of the
+    contract from deployment: any interleaving of authenticated commands (schedule, cancel,
+    operator approvals), dispatches by anyone, callbacks of the dispatched calls (one per
+    dispatch, in any order, succeeding or failing as the schedule dictates) and every other
+    endpoint call.  Per proposal: (1 if it is currently scheduled) + (dispatches in flight) +
+    (dispatches whose call succeeded) ≤ (number of accepted schedule commands).  In particular
+    a proposal that was never scheduled is never live, never in flight and never executed — and
+    this accounting survives finding F3 (a cancel lost in the window does not create an extra
+    dispatch beyond the schedulings). -/
+theorem successful_dispatches_never_exceed_schedulings (C : Crypto) (st0 : State) (h0 : ∀ x, st0.eta x = 0)
+    (h : Hist) (hr : Reach C { st := st0 } h) (x : Bytes) :
+    live h.st x + flying h.inflight x + h.succeeded x ≤ h.scheduled x :=
+  reach_inv C _ _ hr (init_inv st0 h0) x
+
+theorem never_scheduled_never_dispatched (C : Crypto) (st0 : State) (h0 : ∀ x, st0.eta x = 0)
+    (h : Hist) (hr : Reach C { st := st0 } h) (x : Bytes) (hs : h.scheduled x = 0) :
+    h.st.eta x = 0 ∧ h.succeeded x = 0 ∧ flying h.inflight x = 0 := by
+  have := successful_dispatches_never_exceed_schedulings C st0 h0 h hr x
+  rw [hs] at this
+  refine ⟨?_, by omega, by omega⟩
+  have hl : live h.st x = 0 := by omega
+  unfold live at hl
+  split at hl
+  · cases hl
+  · rename_i hn; simpa using hn
 
 /-! ### Non-vacuity (test): a scheduled, matured proposal exists -/
 example : (finalizeTimeLock { eta := fun _ => 50 } 60 [1]).toOption.map (·.2) = some 50 := by
